@@ -53,9 +53,17 @@ class Monitors(object):
 
     def _wrap_to_rfi(self, orig):
         def to_rfi(data, channels=None, amplification_type=None, amplifier_gain=None, resolution=None):
+            from rv.fingerprint import fp
             pre = snapshot(data)
+            args = (channels, amplification_type, amplifier_gain, resolution)
+            fa = [fp(a) for a in args]
+            snap = [list(a) if isinstance(a, list) else a for a in args]       # the values as the caller passed them
             out = orig(data, channels, amplification_type, amplifier_gain, resolution)
             try:
+                self.chk([fp(a) for a in args] == fa, 'rfi:caller-argument-mutated',
+                         which=[n for n, a, b in zip(('channels', 'amplification_type', 'amplifier_gain', 'resolution'),
+                                                     [fp(a) for a in args], fa) if a != b])
+                channels, amplification_type, amplifier_gain, resolution = snap
                 oracle_to_rfi(self, pre, data, channels, amplification_type, amplifier_gain, resolution, out)
             except Exception as e:   # noqa  oracle crash = harness problem, recorded, not a verdict
                 self.ctx.note('oracle-error to_rfi: ' + core.exc_str(e))
@@ -65,9 +73,16 @@ class Monitors(object):
 
     def _wrap_to_mef(self, orig):
         def to_mef(data, channels, sc_list, sc_channels=None):
+            from rv.fingerprint import fp
             pre = snapshot(data)
+            args = (channels, sc_list, sc_channels)
+            fa = [fp(a) for a in args]
+            snap = [list(a) if isinstance(a, list) else a for a in args]
             out = orig(data, channels, sc_list, sc_channels)
             try:
+                self.chk([fp(a) for a in args] == fa, 'mef:caller-argument-mutated',
+                         which=[n for n, a, b in zip(('channels', 'sc_list', 'sc_channels'), [fp(a) for a in args], fa) if a != b])
+                channels, sc_list, sc_channels = snap
                 oracle_to_mef(self, pre, data, channels, sc_list, sc_channels, out)
             except Exception as e:   # noqa
                 self.ctx.note('oracle-error to_mef: ' + core.exc_str(e))
